@@ -21,12 +21,21 @@ type Clause struct {
 	Src  string
 }
 
+func (c *Clause) isInv() bool {
+	for _, t := range c.Tags {
+		if t == "inv" {
+			return true
+		}
+	}
+	return false
+}
+
 func (c *Clause) inSlice(slice map[string]bool) bool {
 	if len(c.Tags) == 0 {
 		return true
 	}
 	for _, t := range c.Tags {
-		if t == "base" || slice[t] || slice["*"] {
+		if t == "base" || t == "inv" || slice[t] || slice["*"] {
 			return true
 		}
 	}
@@ -59,6 +68,7 @@ type Contract struct {
 	NoInline     bool
 	Opaque       bool // treat body as unavailable (verify callers against contract only)
 	Lets         []LetDef
+	Counts       []string // ghost counters incremented at every call site of this (interface) method
 	PureVerdict  string // name of the logic function giving "first error result is nil" as a function of the parameters
 	used         bool
 }
@@ -132,7 +142,7 @@ func normKey(k string) string {
 var clauseKw = map[string]bool{
 	"func": true, "spec": true, "requires": true, "ensures": true, "modifies": true, "loop": true,
 	"panics-unless": true, "macro": true, "ghost": true, "axiom": true, "swallows": true,
-	"noinline": true, "opaque": true, "pure-verdict": true, "let": true, "letold": true, "smt": true, "lemma": true,
+	"noinline": true, "opaque": true, "pure-verdict": true, "counts": true, "let": true, "letold": true, "smt": true, "lemma": true,
 }
 
 type rawItem struct {
@@ -375,6 +385,10 @@ func (db *SpecDB) loadItems(items []rawItem, pkgPath string, trusted bool) {
 		case "swallows":
 			if cur != nil {
 				cur.Swallows = append(cur.Swallows, strings.Fields(rest)[0])
+			}
+		case "counts":
+			if cur != nil {
+				cur.Counts = append(cur.Counts, strings.Fields(rest)...)
 			}
 		case "pure-verdict":
 			if cur != nil {
